@@ -24,6 +24,12 @@ def run(tier, replay=None, pid=PID, theorems=THEOREMS, oracle=the_oracle, ks=(1,
     rc, out, err = run_kind(binary, "approx", cases, meta, lambda m: [m[0], m[1]])
     blocks = parse_blocks(out)
     mu_cache, bad = {}, []
+    if replay and "mu_upper" in rp:        # a replay found by stretch_search: judged against an explicit basis (upper bound on the optimum)
+        b = blocks.get("replay", {"lines": []}); c = cases["replay"]
+        tot = sum(c[1][e][2] for cy in cycles_of(b) for e in cy if 0 <= e < len(c[1])) if line(b, "ret") else None
+        if tot is None or tot > (2 * rp["k"] - 1) * rp["mu_upper"]:
+            res.violation("%s approx_%s k=%d: emitted weight %s exceeds (2k-1) x %d (explicit basis)" % (pid, rp["variant"], rp["k"], tot, rp["mu_upper"]), rp)
+        return res.finish()
     for cid, c in cases.items():
         mu = None
         if need_mu:
@@ -52,6 +58,10 @@ def run(tier, replay=None, pid=PID, theorems=THEOREMS, oracle=the_oracle, ks=(1,
         c = shrink_graph(cases[cid], still_bad)
         res.violation("%s approx_%s k=%d: %s" % (pid, v, k, why), {"kind": "graph", "n": c[0], "edges": c[1], "scale": c[2], "variant": v, "k": k, "why": why, "count": len(bad) + len(viols)})
     elif diffs or (lean_ok and len(oks) != len(cases)):
+        hit = stretch_search(binary) if pid == "C06" else None
+        if hit:
+            res.violation("C06 approx_%s k=%d: %s (found by the focused search after the spanner correspondence broke)" % (hit["variant"], hit["k"], hit["why"]), hit)
+            return res.finish()
         res.violation("trace validation / correspondence broken (Model/Spanner.lean approxRun vs approx_spanner.hpp); the %s oracle still holds on all %d runs" % (pid, len(cases)),
                       {"kind": "correspondence", "first": diffs[:3], "validated": len(oks)}, found=False)
     return res.finish()
